@@ -8,7 +8,7 @@
    validation rule (C07) -- see C05_variable_substituted_everywhere, which shows the literal
    path performs no type check of its own. *)
 From Coq Require Import ZArith List String Bool.
-From TV Require Import Py.Prelude Model.Schema Model.ImplInput Model.SpecArgs Proofs.LiteralFacts Proofs.ArgsRefine.
+From TV Require Import Py.Prelude Model.Schema Model.ImplInput Model.SpecArgs Model.SpecLiteral Proofs.LiteralFacts Proofs.ArgsRefine Proofs.LiteralRefine.
 Import ListNotations.
 Open Scope string_scope.
 
@@ -43,6 +43,21 @@ Theorem C05_argument_map_refines_the_specification fuel ads floc anodes vs :
   map_matches (coerce_arguments_aux sch fuel ads floc anodes vs)
               (spec_arguments (impl_coerce_literal sch fuel vs) ads anodes vs).
 Proof. exact (coerce_arguments_refines sch fuel ads floc anodes vs). Qed.
+
+(* The literal coercer chain (wrappers folded around a leaf, the non-null flag threaded through)
+   IS the coercion of a literal by recursion on the declared type (Model/SpecLiteral.v): equal
+   results -- value, invalid, or the same exception -- for every schema (ill-formed ones
+   included), type, literal with variables anywhere inside, variable map and fuel. *)
+Theorem C05_literal_coercer_refines_the_specification fuel t vs nn l :
+  get_literal_coercer sch fuel t vs nn l = spec_literal sch fuel t vs nn l.
+Proof. exact (literal_coercer_refines_spec sch fuel t vs nn l). Qed.
+
+(* ... so what reaches the resolver is CoerceArgumentValues with literals coerced by the
+   specification's rules, with no parameter left *)
+Theorem C05_arguments_are_CoerceArgumentValues fuel ads floc anodes vs :
+  map_matches (coerce_arguments_aux sch fuel ads floc anodes vs)
+              (spec_arguments (spec_coerce_literal sch fuel vs) ads anodes vs).
+Proof. exact (coerce_arguments_refines_spec sch fuel ads floc anodes vs). Qed.
 
 Theorem C05_argument_omitted fuel ad floc vs :
   in_default ad = None ->
@@ -104,3 +119,5 @@ Print Assumptions C05_default_eq_literal.
 Print Assumptions C05_failure_is_local.
 Print Assumptions C05_argument_coercion_refines_the_specification.
 Print Assumptions C05_argument_map_refines_the_specification.
+Print Assumptions C05_literal_coercer_refines_the_specification.
+Print Assumptions C05_arguments_are_CoerceArgumentValues.
